@@ -163,8 +163,14 @@ func TestVerif_C01_sqlx_table(t *testing.T) {
 
 type c01SQLStep struct {
 	N int    `json:"n"` // connection index
-	E string `json:"e"` // exec queryrow queryrows prepare transact
+	E string `json:"e"` // exec queryrow queryrowpartial queryrows queryrowspartial prepare transact transactnoctx
 	O int    `json:"o"` // 0 ok 1 no rows 2 tx done 3 driver returns context.Canceled 4 caller's ctx cancelled 9 database down
+	// B: how a transaction body produces outcome O (transact entries only):
+	// 0 through s.ExecCtx (the driver returns the error); 1 the body returns the
+	// error itself; 2 the body commits the tx itself and returns nil, 3 rolls it
+	// back itself and returns nil (O=2 only: the final Commit yields sql.ErrTxDone);
+	// 4 the body queries an empty result set (O=1 only: ErrNotFound path).
+	B int `json:"b,omitempty"`
 }
 
 type c01SQLCase struct {
@@ -177,11 +183,35 @@ type c01SQLCase struct {
 func c01GenSQL(rt *rapid.T) c01SQLCase {
 	c := c01SQLCase{K: rapid.IntRange(1, 3).Draw(rt, "k")}
 	c.Skew = rapid.Int64Range(0, 1_000_000_000).Draw(rt, "skew")
-	all := []string{"exec", "queryrow", "queryrows", "prepare", "transact"}
+	all := []string{"exec", "queryrow", "queryrowpartial", "queryrows", "queryrowspartial", "prepare", "transact", "transact", "transactnoctx"}
+	// mk draws the body mode for transaction entries
+	fixB := -1 // per connection: one fixed body mode (where valid), so that a miscounting mode is not diluted
+	mk := func(n int, e string, o int) c01SQLStep {
+		st := c01SQLStep{N: n, E: e, O: o}
+		valid := map[int][]int{1: {0, 1, 4}, 2: {0, 1, 2, 3}, 3: {0, 1}, 9: {0, 1}}
+		if e == "transact" || e == "transactnoctx" {
+			for _, b := range valid[o] {
+				if b == fixB {
+					st.B = b
+					return st
+				}
+			}
+			switch o {
+			case 1:
+				st.B = rapid.SampledFrom([]int{0, 1, 4}).Draw(rt, "b")
+			case 2:
+				st.B = rapid.SampledFrom([]int{0, 1, 2, 2, 3, 3}).Draw(rt, "b")
+			case 3, 9:
+				st.B = rapid.IntRange(0, 1).Draw(rt, "b")
+			}
+		}
+		return st
+	}
 	scripts := make([][]c01SQLStep, c.K)
 	for n := 0; n < c.K; n++ {
 		kind := rapid.SampledFrom([]int{0, 0, 1, 1, 2}).Draw(rt, "kind")
 		c.Kind = append(c.Kind, kind)
+		fixB = rapid.IntRange(-1, 4).Draw(rt, "fixb")
 		entries := all
 		if rapid.Bool().Draw(rt, "oneentry") { // a miscounting entry point must not be diluted by the others
 			entries = []string{rapid.SampledFrom(all).Draw(rt, "theentry")}
@@ -194,21 +224,22 @@ func c01GenSQL(rt *rapid.T) c01SQLCase {
 				pool = []int{rapid.IntRange(1, 4).Draw(rt, "the")}
 			}
 			for i := 0; i < ln; i++ {
-				scripts[n] = append(scripts[n], c01SQLStep{n, rapid.SampledFrom(entries).Draw(rt, "e"), rapid.SampledFrom(pool).Draw(rt, "o")})
+				scripts[n] = append(scripts[n], mk(n, rapid.SampledFrom(entries).Draw(rt, "e"), rapid.SampledFrom(pool).Draw(rt, "o")))
 			}
 			nf := rapid.IntRange(0, 5).Draw(rt, "nfail")
 			for i := 0; i < nf; i++ {
-				scripts[n][rapid.IntRange(0, ln-1).Draw(rt, "pos")].O = 9
+				k := rapid.IntRange(0, ln-1).Draw(rt, "pos")
+				scripts[n][k].O, scripts[n][k].B = 9, scripts[n][k].B%2
 			}
 		case 1:
 			ln := rapid.IntRange(200, 280).Draw(rt, "n")
 			for i := 0; i < ln; i++ {
-				scripts[n] = append(scripts[n], c01SQLStep{n, rapid.SampledFrom(entries).Draw(rt, "e"), 9})
+				scripts[n] = append(scripts[n], mk(n, rapid.SampledFrom(entries).Draw(rt, "e"), 9))
 			}
 		default:
 			ln := rapid.IntRange(20, 200).Draw(rt, "n")
 			for i := 0; i < ln; i++ {
-				scripts[n] = append(scripts[n], c01SQLStep{n, rapid.SampledFrom(entries).Draw(rt, "e"), rapid.SampledFrom([]int{0, 1, 2, 3, 4, 9, 9, 9}).Draw(rt, "o")})
+				scripts[n] = append(scripts[n], mk(n, rapid.SampledFrom(entries).Draw(rt, "e"), rapid.SampledFrom([]int{0, 1, 2, 3, 4, 9, 9, 9}).Draw(rt, "o")))
 			}
 		}
 	}
@@ -272,7 +303,7 @@ func c01InterpSQL(t *testing.T, c c01SQLCase) (v kit.Verdict) {
 			switch o.O {
 			case 1:
 				want = sql.ErrNoRows
-				if o.E == "queryrow" {
+				if o.E == "queryrow" || o.E == "queryrowpartial" {
 					cfg.rows = 0 // the natural way: empty result set
 				} else {
 					cfg.next = sql.ErrNoRows
@@ -305,11 +336,51 @@ func c01InterpSQL(t *testing.T, c c01SQLCase) (v kit.Verdict) {
 				if err == nil && st != nil {
 					_ = st.Close()
 				}
-			case "transact":
-				err = conn.TransactCtx(ctx, func(ctx context.Context, s Session) error {
+			case "queryrowpartial":
+				var x int64
+				err = conn.QueryRowPartialCtx(ctx, &x, "queryrow")
+			case "queryrowspartial":
+				var xs []int64
+				err = conn.QueryRowsPartialCtx(ctx, &xs, "queryrows")
+			case "transact", "transactnoctx":
+				b := o.B
+				// keep the step total for shrunk / hand-written cases
+				if (b == 2 || b == 3) && o.O != 2 || b == 4 && o.O != 1 || b == 1 && (o.O == 0 || o.O == 4) || b < 0 || b > 4 {
+					b = 0
+				}
+				switch b {
+				case 1, 2, 3:
+					cfg.next = nil // the driver itself is healthy
+				case 4:
+					cfg.next, cfg.rows = nil, 0
+				}
+				body := func(ctx context.Context, s Session) error {
+					switch b {
+					case 1:
+						return want
+					case 2:
+						if e := s.(trans).Commit(); e != nil {
+							return fmt.Errorf("harness: body commit: %v", e)
+						}
+						return nil
+					case 3:
+						if e := s.(trans).Rollback(); e != nil {
+							return fmt.Errorf("harness: body rollback: %v", e)
+						}
+						return nil
+					case 4:
+						var x int64
+						return s.QueryRowCtx(ctx, &x, "queryrow")
+					}
 					_, e := s.ExecCtx(ctx, "exec")
 					return e
-				})
+				}
+				classes[fmt.Sprintf("tx-body-%d/outcome-%d", b, o.O)] = true
+				if o.E == "transactnoctx" && o.O != 4 {
+					err = conn.Transact(func(s Session) error { return body(context.Background(), s) })
+				} else {
+					err = conn.TransactCtx(ctx, body)
+				}
 			}
 			classes[o.E] = true
 			what := fmt.Sprintf("step %d %+v (call %d of connection %d)", i, o, calls[n], n)
@@ -325,7 +396,11 @@ func c01InterpSQL(t *testing.T, c c01SQLCase) (v kit.Verdict) {
 				}
 				continue
 			}
-			if err != want {
+			// what the caller gets back is judged by identity, except where the error
+			// is produced by the final Commit of a transaction the body ended itself:
+			// there only the breaker's reaction is the subject (errors.Is suffices)
+			selfEnded := (o.E == "transact" || o.E == "transactnoctx") && (o.B == 2 || o.B == 3) && o.O == 2
+			if err != want && !(selfEnded && errors.Is(err, want)) {
 				fail = fmt.Sprintf("%s: returned %v, expected the environment's %v", what, err, want)
 				return
 			}
